@@ -1,7 +1,7 @@
 ----------------------------- MODULE MCPolling -----------------------------
 (* Configurations of Polling.tla.
    Cadence (deterministic closed loop, zero request time): grid of (min, initial, max) settings x
-   production patterns (steady period T at three phases; steady -> stall -> resume at another period;
+   production patterns (steady period T at two phases; steady -> stall -> resume at another period;
    steady -> burst -> steady).  Every path is one run of MaxRounds rounds; the cadence monitors and
    the per-round clauses are invariants.
    Delay (nondeterministic): request times {0, short, long, longer than the interval} x "certificate
@@ -15,7 +15,7 @@ Periods(s) == {T \in {s[1], s[1] + 1, 2 * s[1], s[2] \div 3, s[2] \div 2, s[2] -
 Cfg(s, segs) == [mn |-> s[1], init |-> s[2], mx |-> s[3], segs |-> segs]
 Steady(T, ph) == IF ph = 0 THEN <<[dur |-> Big, T |-> T, settle |-> TRUE]>>
                  ELSE <<[dur |-> ph, T |-> 0, settle |-> FALSE], [dur |-> Big, T |-> T, settle |-> TRUE]>>
-SteadyConfigs == UNION {UNION {{Cfg(s, Steady(T, ph)) : ph \in {0, T \div 2, T - 1}} : T \in Periods(s)} : s \in Settings}
+SteadyConfigs == UNION {UNION {{Cfg(s, Steady(T, ph)) : ph \in {0, T - 1}} : T \in Periods(s)} : s \in Settings}
 PatternConfigs ==
   UNION {{Cfg(s, <<[dur |-> 100 * Ts[1], T |-> Ts[1], settle |-> TRUE], [dur |-> k * s[3], T |-> 0, settle |-> FALSE],
             [dur |-> Big, T |-> Ts[2], settle |-> TRUE]>>)
